@@ -223,7 +223,7 @@ class Runner:
             rounds = 0
             while not c.task.done() and rounds < 6 and raw.rstrip(b'\r\n').split(b'\r\n')[-1][:1] == b'+' and not _tagged(raw, tag):
                 # a continuation request: literal data, a SASL response or DONE is expected
-                follow = self.r.choice([b'DONE', b'*', b'AHUAcA==', b'x' * 5, b'', b'abc)', b'\xff\xfe'])
+                follow = self.r.choice([b'DONE', b'*', b'AHUAcA==', b'x' * 5, b'', b'abc)', b'\xff\xfe', b'DO\rNE', b'\rDONE', b'DONE\r', b'x\ry', b'\r', b'DONE \x00', b'\x00'])
                 raw += await c.send(follow + b'\r\n')
                 rounds += 1
             if not c.task.done() and raw == b'':
